@@ -159,6 +159,25 @@ def make_classes():
                 return MetricBaseAggregated.analyze(self, data, control, treatment, variant)
             return MetricBaseGranular.analyze(self, data, control, treatment, variant)
 
+    from tea_tasting.metrics.base import MetricBase, MetricPowerResults, PowerBaseAggregated
+
+    class PowerOnly(MetricBase, PowerBaseAggregated):
+        """plain metric for analyze(); its power analysis works from aggregates"""
+        def __init__(self, cols_):
+            self.cols_ = tuple(cols_)
+
+        @property
+        def aggr_cols(self):
+            a, b = self.cols_
+            return AggrCols(has_count=True, mean_cols=(a, b), var_cols=(b,), cov_cols=((a, b),))
+
+        def analyze(self, data, control, treatment, variant):
+            return {"plain": 1}
+
+        def solve_power_from_aggregates(self, data, parameter="rel_effect_size"):
+            return MetricPowerResults([{"n": data.count(), "m": data.mean(self.cols_[0])}])
+
+    make_classes.PowerOnly = PowerOnly
     return AggrCols, CustomAggr, CustomGran, CustomBoth
 
 
@@ -221,9 +240,10 @@ def run(chk: Check, n):
                 "unused1": list(range(nrows)), "unused2": ["q"] * nrows}
         metrics = gen_definition(rng, i, classes, colnames)
         backend = ("ibis-sqlite", "polars-lazy")[i % 2] if i % 7 else "polars-lazy"
-        jobs.append((ids, nrows, cols, metrics, backend))
+        power_only = make_classes.PowerOnly(rng.sample(colnames, 2)) if i % 2 == 0 else None
+        jobs.append((ids, nrows, cols, metrics, backend, power_only))
     lines = []
-    for ids, nrows, cols, metrics, backend in jobs:
+    for ids, nrows, cols, metrics, backend, power_only in jobs:
         nv = len(ids)
         npairs = nv * (nv - 1) // 2
         ms = " ".join(f"{name} {kind_wire(m)}" for name, m in metrics.items())
@@ -236,9 +256,11 @@ def run(chk: Check, n):
                 pk.append(f"{name} P")
             else:
                 pk.append(f"{name} N")
+        if power_only is not None:
+            pk.append(f"zz_power_only A {ac_wire(power_only.aggr_cols)}")
         lines.append(f"ptrace {len(pk)} {' '.join(pk)}")
     out = Driver("DriverExperiment.lean").ask(lines)
-    for j, (ids, nrows, cols, metrics, backend) in enumerate(jobs):
+    for j, (ids, nrows, cols, metrics, backend, power_only) in enumerate(jobs):
         model_trace = out[2 * j].split()
         model_ptrace = out[2 * j + 1].split()
         nv = len(ids)
@@ -271,6 +293,8 @@ def run(chk: Check, n):
                                             rel_effect_size=0.1, n_obs=(500, 2000))
             else:
                 pms[name] = m
+        if power_only is not None:
+            pms["zz_power_only"] = power_only
         if any(isinstance(m, tm.PowerBaseAggregated) for m in pms.values()):
             sql.clear()
             with record_fetches() as ev:
